@@ -24,6 +24,7 @@ NumClasses == {
   [name |-> "negfmax",   exp |-> 1023,  isint |-> FALSE],
   [name |-> "int308",    exp |-> 1023,  isint |-> TRUE],
   [name |-> "denormal",  exp |-> -1074, isint |-> FALSE],
+  [name |-> "int1024m1", exp |-> 1023,  isint |-> TRUE],     \* 2**1024 - 1: just above the largest float
   [name |-> "bigint",    exp |-> 1330,  isint |-> TRUE],
   [name |-> "negbigint", exp |-> 1330,  isint |-> TRUE] }
 StrClasses == {"empty", "nul", "paren", "bracket", "smiley", "backslash", "long", "astral",
@@ -52,6 +53,33 @@ SchemaAtoms == {"multipleOf", "type_number", "type_integer", "minimum", "maximum
                 "items_number", "contains_const", "additionalProperties_false", "object_class"}
 NameClasses == {"nul", "del", "private_use", "surrogate", "paren", "space", "superscript", "empty",
                 "combining", "keyword", "dunder"}
+
+(***************************************************************************)
+(* Verdicts Draft 6 prescribes for the numeric extremes (reference facts;   *)
+(* the harness re-derives every entry with exact rational arithmetic        *)
+(* before trusting the table -- a mismatch is a machinery failure).         *)
+(* Values: zero 0, one 1, negzerof -0.0, onehalf 0.5, p53plus1 2**53+1,     *)
+(* fmax / negfmax +-1.7976931348623157e308, int308 10**308,                 *)
+(* int1024m1 2**1024-1, denormal 5e-324, bigint / negbigint +-10**400.      *)
+(***************************************************************************)
+MultiplesOf(m) ==
+  CASE m = "m_half"   -> {"zero", "one", "negzerof", "onehalf", "p53plus1", "fmax", "negfmax", "int308",
+                          "int1024m1", "bigint", "negbigint"}
+    [] m = "m_three"  -> {"zero", "negzerof", "p53plus1", "int1024m1"}
+    [] m = "m_threef" -> {"zero", "negzerof", "p53plus1", "int1024m1"}
+    [] m = "m_tiny"   -> {"zero", "negzerof"}
+AtLeastOne == {"one", "p53plus1", "fmax", "int308", "int1024m1", "bigint"}
+Integers_ == {"zero", "one", "p53plus1", "int308", "int1024m1", "bigint", "negbigint"}
+ExpectedAccept(c) ==     \* {TRUE}, {FALSE}, or BOOLEAN where the table says nothing
+  IF c.kind = "mult" /\ c.arg = "m_tiny" THEN BOOLEAN     \* 1e-300 is not binary-exact: numeric accuracy (A4)
+  ELSE IF c.kind = "mult" THEN {c.val \in MultiplesOf(c.arg)}
+  ELSE IF c.kind = "num" /\ c.atom = "type_number" THEN {TRUE}
+  ELSE IF c.kind = "num" /\ c.atom = "type_integer" THEN {c.val \in Integers_}
+  ELSE IF c.kind = "num" /\ c.atom = "minimum" THEN {c.val \in AtLeastOne}
+  ELSE IF c.kind = "num" /\ c.atom = "maximum_big" THEN {TRUE}
+  ELSE IF c.kind = "num" /\ c.atom = "const_big" THEN {c.val = "bigint"}
+  ELSE BOOLEAN
+R_C01_extreme(c, kind) == (kind = "ok" /\ TRUE \in ExpectedAccept(c)) \/ (kind = "reject" /\ FALSE \in ExpectedAccept(c))
 
 R_C10_call(kind)  == kind \in {"ok", "reject", "typeerror"}
 R_C10_parse(kind) == kind \in {"ok", "parseerr", "notimpl"}
